@@ -302,3 +302,91 @@ for _name, _K, _rel in (("_should_requirement_violations", "Dep", "layer_abstrac
                      # missing-import buckets of the layer detector: exactly the layer-level relation, and nothing unless the flag is set and the query was made
                      ensures=[f"forall(Dep, lambda x: (x in result) == ({_an[1]} and (not is_none({_an[2]})) and {_rel}(self._module_requirement, {_LMAP}, unwrap({_an[2]}), x)))"],
                      properties=["C05"]))
+
+# ================================================================ C05: LayerRuleMatcher -- regex layers are replaced by the matched modules before judging
+# Default view: a LayerMapping is an opaque object with three observers -- layers_of(L) (all_layers), lm_filters(L, layer) (get_module_filters of a mapping built from
+# ModuleFilters: the rule's own layer definition), lm_mods(L, layer) (the same accessor of a mapping built from Modules: the UPDATED mapping the detector judges with) --
+# and one constructor LayerMapping(dict) that yields a mapping whose observers return exactly the dict's keys / values (what LayerMapping.__init__ / all_layers /
+# get_module_filters do is proved on the real code in the string view, c_layermap.py; the link between the two views is by name).
+_LMS, _LNS = vals.opaque_sort("LayerMapping"), vals.opaque_sort("LayerName")
+_f_lm_filters = z3.Function("lm_filters", _LMS, _LNS, z3.ArraySort(vals.DATA["Filter"]["sort"], z3.BoolSort()))
+_f_lm_mods = z3.Function("lm_mods", _LMS, _LNS, z3.ArraySort(vals.DATA["Mod"]["sort"], z3.BoolSort()))
+
+
+@REG.specfun("lm_filters")
+def _lm_filters(eng, st, L, l):
+    return V(("bag", ("data", "Filter")), _f_lm_filters(L.x, l.x))
+
+
+@REG.specfun("lm_mods")
+def _lm_mods(eng, st, L, l):
+    return V(("bag", ("data", "Mod")), _f_lm_mods(L.x, l.x))
+
+
+def _layer_mapping_ctor(reg, eng, st, args, kwargs, node):
+    """LayerMapping(d) in the default view: a FRESH opaque mapping whose observers return d's keys and values (ASSUMED here, listed as trusted; proved on the real
+    constructor / accessors in the string view). Refuses everything but a dict keyed by layer names with lists of filters or of modules."""
+    from pyvc.vals import fresh, fresh_name
+    from pyvc.state import OutOfSubset
+    vs = list(args) + list(kwargs.values())
+    if len(vs) != 1 or vs[0].t[0] != "dict" or vs[0].x is None or vs[0].t[1] != ("opaque", "LayerName") or vs[0].t[2] not in (("bag", ("data", "Filter")), ("bag", ("data", "Mod"))):
+        raise OutOfSubset("LayerMapping(...) on something else than a dict LayerName -> list of filters / modules")
+    d = vs[0]
+    L = fresh(("opaque", "LayerMapping"), "lm")
+    layers = reg.apply_contract(eng, reg.contracts["LayerMapping.all_layers"], [L], {}, st, node)[0][1]
+    obs = _f_lm_filters if d.t[2][1] == ("data", "Filter") else _f_lm_mods
+    l = z3.Const(fresh_name("l"), _LNS)
+    st.assume(z3.ForAll([l], z3.Select(layers.x, l) == z3.Select(d.x[0], l)))
+    st.assume(z3.ForAll([l], z3.Implies(z3.Select(d.x[0], l), obs(L.x, l) == z3.Select(d.x[1], l))))
+    eng.assumed.append("LayerMapping(dict)")
+    return [(st, L)]
+
+
+REG.ctors["LayerMapping"] = _layer_mapping_ctor
+REG.add(Contract("LayerMapping.get_module_filters", module=M_EA2, kind="method", status="abstraction",
+                 params=dict(self="Opaque[LayerMapping]", layer="LayerName"), returns="Bag[Filter]",
+                 raises=[("KeyError", "not (layer in layers_of(self))")], defn="lm_filters(self, layer)",
+                 note="opaque view of LayerMapping.get_module_filters (self._layer_mapping_for_module_filters[layer]; proved in the string view as LayerMapping.get_module_filters@str)"))
+
+_RM_FIELDS_L = dict(
+    _module_requirement="ModuleRequirement", _behavior_requirement="BehaviorRequirement", _updated_module_requirement="ModuleRequirement",
+    _conversion_mapping_importers="Dict[Node,Bag[Mod]]", _conversion_mapping_importees="Dict[Node,Bag[Mod]]",
+    _layer_mapping="Opaque[LayerMapping]", _updated_layer_mapping="Opaque[LayerMapping]")
+vals.declare_obj("LayerRuleMatcher", _RM_FIELDS_L)
+M_RM2 = "pytestarch.rule_assessment.rule_check.rule_matcher"
+LRM = "LayerRuleMatcher"
+# modelling device (as for the detector): the layer matcher's record extends the module matcher's, so the RuleMatcher contracts (stated on DefaultRuleMatcher) apply to it
+REG.class_bases["LayerRuleMatcher"] = ["DefaultRuleMatcher"]
+REG.add(Contract(f"{LRM}.__init__", module=M_RM2, kind="method",
+                 params=dict(self=LRM, module_requirement="ModuleRequirement", behavior_requirement="BehaviorRequirement", layer_mapping="Opaque[LayerMapping]"),
+                 returns="None", modifies=["self"],
+                 ensures=["self._module_requirement == module_requirement", "self._behavior_requirement == behavior_requirement", "self._layer_mapping == layer_mapping"],
+                 properties=["C05"]))
+# the modules a layer consists of after regex expansion: a named module / 'sub modules of' filter as itself; a regex filter as the modules the conversion mapping
+# lists for it -- NOTHING when the mapping has no entry (a regex layer the rule does not mention was never resolved: F05a; its modules are then in no layer)
+REG.macro("lm_expanded", ["F", "C", "m"],
+          "exists(Filter, lambda f: (f in F) and (((not is_regex(f)) and m == f2m(f)) or (is_regex(f) and (fid(f) in C) and (m in C[fid(f)]))))")
+REG.add(Contract(f"{LRM}._replace_regex_specified_modules_with_actual_modules", module=M_RM2, kind="classmethod",
+                 params=dict(layer="LayerName", layer_mapping="Opaque[LayerMapping]", module_name_conversion_mapping="Dict[Node,Bag[Mod]]"), returns="Bag[Mod]",
+                 raises=[("KeyError", "not (layer in layers_of(layer_mapping))")],
+                 ensures=["forall(Mod, lambda m: (m in result) == lm_expanded(lm_filters(layer_mapping, layer), module_name_conversion_mapping, m))"],
+                 locals=dict(result="Bag[Mod]", modules_potentially_with_regexes="Bag[Filter]"),
+                 loops={0: dict(sig="for module in modules_potentially_with_regexes", invariant=[
+                     "forall(Mod, lambda m: (m in result) == lm_expanded(seen, module_name_conversion_mapping, m))"])},
+                 properties=["C05"]))
+REG.macro("lm_updated", ["L0", "C", "L1"],
+          "forall(LayerName, lambda l: (l in layers_of(L1)) == (l in layers_of(L0))) and "
+          "forall(LayerName, Mod, lambda l, m: implies(l in layers_of(L0), (m in lm_mods(L1, l)) == lm_expanded(lm_filters(L0, l), C, m)))")
+REG.add(Contract(f"{LRM}._update_layer_mapping", module=M_RM2, kind="classmethod",
+                 params=dict(layer_mapping="Opaque[LayerMapping]", module_name_conversion_mapping="Dict[Node,Bag[Mod]]"), returns="Opaque[LayerMapping]",
+                 # C05 (F05a): total -- defined for EVERY layer of the architecture, mentioned by the rule or not; same layers, each with its expanded modules
+                 ensures=["lm_updated(layer_mapping, module_name_conversion_mapping, result)"], properties=["C05"]))
+REG.add(Contract(f"{LRM}._get_rule_violation_detector", module=M_RM2, kind="method",
+                 params=dict(self=LRM, module_name_conversion_mapping="Dict[Node,Bag[Mod]]"), returns=LD, modifies=["self"],
+                 ensures=["result._module_requirement == self._updated_module_requirement", "result._behavior_requirement == self._behavior_requirement",
+                          "result._layer_to_module_mapping == self._updated_layer_mapping",
+                          "lm_updated(self._layer_mapping, module_name_conversion_mapping, self._updated_layer_mapping)"]
+                 + [f"self.{f} == old(self).{f}" for f in _RM_FIELDS_L if f != "_updated_layer_mapping"],
+                 properties=["C05"]))
+REG.add(Contract(f"{LRM}._create_rule_violation_message_generator", module=M_RM2, kind="method", status="assumed", params=dict(self=LRM), returns="Opaque[MessageGenerator]",
+                 note="message text only: irrelevant for the verdict (C03 covers the records)"))
